@@ -22,8 +22,14 @@ AllListed == UNION {Listed(i) : i \in Ins}
 FirstKeys == {shape[i].keys[1] : i \in Ins}
 LastKeys == {shape[i].keys[Len(shape[i].keys)] : i \in Ins}
 
+\* the container the scripts travel in and the way key paths get registered rotate with the other
+\* parameters of a pass (all five containers / all three ways occur for every puzzle kind in "prod")
+ScSeq == <<"list", "gen", "tuple", "iter", "set">>
+ViaSeq == <<"paths", "keys12", "keys21">>
 P(mech, K, I, ht, scr, reg, sec, fresh, ic) ==
-    [mech |-> mech, K |-> K, I |-> I, ht |-> ht, scr |-> scr, reg |-> reg, sec |-> sec, fresh |-> fresh, ic |-> ic]
+    [mech |-> mech, K |-> K, I |-> I, ht |-> ht, scr |-> scr, reg |-> reg, sec |-> sec, fresh |-> fresh, ic |-> ic,
+     sc |-> ScSeq[((ht + Cardinality(K) + Cardinality(reg)) % 5) + 1],
+     via |-> IF "via" \in DOMAIN case THEN case.via ELSE ViaSeq[((ht + Cardinality(reg)) % 3) + 1]]
 \* a pass supplying exactly the keys K through the behaviour's mechanism
 Plain(mech, K, I, ht, scr, ic) == IF mech = "keychain" THEN P(mech, {}, I, ht, scr, K, Masters, TRUE, ic)
                                   ELSE P(mech, K, I, ht, scr, {}, {}, TRUE, ic)
@@ -118,18 +124,19 @@ Allowed(p) == {[s |-> [i \in Ins |-> SignedWith(p, i, ch[i])],
                 v |-> [i \in Ins |-> Cardinality(ch[i]) >= Need(i)],
                 bad |-> Reports(p, ch).bad, raises |-> Reports(p, ch).raises] : ch \in PassChoices(p, NIn)}
 RecOf(p) == [mech |-> p.mech, K |-> p.K, I |-> p.I, ht |-> p.ht, scr |-> p.scr, reg |-> p.reg,
-             sec |-> p.sec, fresh |-> p.fresh, ic |-> p.ic, sup |-> Supplied(p), touch |-> Touchable(p),
+             sec |-> p.sec, fresh |-> p.fresh, ic |-> p.ic, sc |-> p.sc, via |-> p.via, sup |-> Supplied(p), touch |-> Touchable(p),
              allowed |-> Allowed(p)]
 \* a keychain edit, printed in the shape of a pass: the only state it allows is the current one
 RecOfAdd(a) == [mech |-> "kc_add", K |-> {}, I |-> {}, ht |-> 1, scr |-> a.S, reg |-> a.R, sec |-> a.M,
-                fresh |-> FALSE, ic |-> "set", sup |-> {}, touch |-> {},
+                fresh |-> FALSE, ic |-> "set", sc |-> ScSeq[(npass % 5) + 1],
+                via |-> IF "via" \in DOMAIN case THEN case.via ELSE "paths", sup |-> {}, touch |-> {},
                 allowed |-> {[s |-> signed, v |-> valid, bad |-> BadNow, raises |-> FALSE]}]
 
 \* number of outputs of the transaction (concretization; only the "front" cases vary it)
 NOut == IF "nout" \in DOMAIN case THEN case.nout ELSE 2
 \* an edit by the caller, printed in the shape of a pass: exactly one state is allowed after it
 RecOfEdit(x) == [mech |-> "edit", K |-> {}, I |-> {}, ht |-> 1, scr |-> FALSE, reg |-> {}, sec |-> {},
-                 fresh |-> FALSE, ic |-> "set", sup |-> {}, touch |-> {}, field |-> x.m, pos |-> x.a,
+                 fresh |-> FALSE, ic |-> "set", sc |-> "list", via |-> "paths", sup |-> {}, touch |-> {}, field |-> x.m, pos |-> x.a,
                  allowed |-> {[s |-> signed', v |-> valid', bad |-> Cardinality({i \in Ins : ~valid'[i]}), raises |-> FALSE]}]
 RInit == /\ case \in Cases /\ ShapeOK(case.coin, case.shape) /\ InitWithN(case.coin, case.shape, NOut)
          /\ acts = <<>> /\ outs = <<>> /\ alive = TRUE
@@ -194,14 +201,23 @@ LimCases(coins, mn, walks) ==
 KcCases(coins) ==
     {[coin |-> c, walk |-> 1,
       shape |-> <<D(MSKinds[a], 2 + (a % 2), <<1, 2, 3>>, IF a = 2 THEN "u" ELSE "c"), Second[((2 * a) % 6) + 1]>>,
-      ht |-> HTSeq[a + 1], mech |-> "keychain"] : c \in coins, a \in 1..4}
+      ht |-> HTSeq[a + 1], mech |-> "keychain", via |-> <<"keys12", "keys21", "paths", "keys12">>[a]] : c \in coins, a \in 1..4}
 KcCasesQ == KcCases({"BTC"}) \cup {x \in KcCases({"BCH"}) : x.shape[1].kind = "ms_p2sh"}
 KcCasesT == KcCases({"BTC", "BTG", "LTC"}) \cup KcCases({"BCH"})
 \* front-end cases: three single-key inputs (and a two-input shape with a multisig) x 1..4 outputs
 FrontShapes(a) == IF a = 1 THEN <<D("p2pkh", 1, <<1>>, "c"), D("p2wpkh", 1, <<2>>, "c"), D("p2pk", 1, <<3>>, "u")>>
                   ELSE IF a = 2 THEN <<D("p2pkh", 1, <<3>>, "u"), D("p2pk", 1, <<1>>, "c"), D("p2pkh", 1, <<2>>, "c")>>
                   ELSE <<D("ms_bare", 2, <<1, 2>>, "c"), D("p2pkh", 1, <<3>>, "c")>>
-FrontCases == {[coin |-> c, walk |-> 1, shape |-> FrontShapes(a), nout |-> n, ht |-> HTSeq[((a + n) % 6) + 1], mech |-> "wifs"] :
+\* the same puzzle (same keys, byte-identical script: address reuse) at two positions of one transaction
+DupShapes == << <<D("p2pkh", 1, <<1>>, "c"), D("p2pkh", 1, <<1>>, "c")>>,
+                <<D("p2wpkh", 1, <<2>>, "c"), D("p2wpkh", 1, <<2>>, "c")>>,
+                <<D("ms_p2sh", 2, <<1, 2>>, "c"), D("ms_p2sh", 2, <<1, 2>>, "c")>>,
+                <<D("ms_p2wsh", 1, <<2, 1>>, "c"), D("p2pk", 1, <<3>>, "c"), D("ms_p2wsh", 1, <<2, 1>>, "c")>>,
+                <<D("p2sh_p2wpkh", 1, <<1>>, "c"), D("p2sh_p2wpkh", 1, <<1>>, "c")>>,
+                <<D("p2pkh", 1, <<3>>, "u"), D("ms_bare", 1, <<1, 2>>, "c"), D("p2pkh", 1, <<3>>, "u")>> >>
+DupCases == {[coin |-> c, walk |-> 1, shape |-> DupShapes[a], nout |-> 2, ht |-> HTSeq[a], mech |-> "wifs"] :
+               c \in {"BTC", "BCH"}, a \in 1..6}
+FrontCases == DupCases \cup {[coin |-> c, walk |-> 1, shape |-> FrontShapes(a), nout |-> n, ht |-> HTSeq[((a + n) % 6) + 1], mech |-> "wifs"] :
                  c \in {"BTC", "BCH", "LTC"}, a \in 1..3, n \in 1..4}
 \* edit cases: the puzzle kind under test (single key, or 2-of-3) at position pos of two inputs, next to a
 \* single-key input of another kind; two outputs
